@@ -28,6 +28,7 @@ type hyRun struct {
 	metaIdx    comet.MetadataIndex
 	docs       map[int]bool
 	everRemoved []int
+	prepared   []hyPrepared // builders of this index kept for re-execution (dropped when the index object is replaced)
 	vecKind    string // "flat" or "ivf" (two clusters, searched with nprobes = nlist: exact, exercises the parameter pass-through)
 }
 
@@ -67,6 +68,7 @@ func (r *hyRun) reset(v, t, m bool) {
 	r.h = comet.NewHybridSearchIndex(r.vecIdx, r.txtIdx, r.metaIdx)
 	r.docs = map[int]bool{}
 	r.everRemoved = nil
+	r.prepared = nil
 	r.t.ev("reset", E{"v": v, "t": t, "m": m})
 }
 
@@ -87,6 +89,8 @@ func (r *hyRun) add(id int, pos int, text string, meta map[string]any, fault str
 		realMeta["bad"] = []int{1} // unsupported value type
 	case "metanil":
 		realMeta["bad"] = nil // a null value is not a storable value either
+	case "metai32":
+		realMeta["bad"] = []any{int32(5), uint8(3), float32(1.5), int16(-2)}[r.rng.Intn(4)] // numeric types the index does not store
 	}
 	var md map[string]any
 	if len(realMeta) > 0 {
@@ -173,6 +177,7 @@ func (r *hyRun) reload() {
 		rest, _ = io.ReadAll(rd)
 		if err == nil {
 			r.h, r.vecIdx, r.txtIdx, r.metaIdx = fresh, nv, nt, nm
+			r.prepared = nil
 		}
 	}
 	msg := ""
@@ -217,6 +222,7 @@ type hyQuery struct {
 	fusion int
 	wv, wt int
 	emptyText bool // WithText("") : a text query that matches nothing (and needs a text index)
+	dflt   int // 1: no fusion call at all (the default fusion); 2: WithFusionKind (default configuration): weights 1 / 1, constant 60
 	rrk    int // reciprocal-rank constant (60 unless rrkSet)
 	rrkSet bool
 }
@@ -225,8 +231,22 @@ func (r *hyRun) search(q hyQuery) {
 	if q.rrk == 0 && !q.rrkSet {
 		q.rrk = 60
 	}
-	fu, _ := comet.NewFusion(fuseKinds[q.fusion], &comet.FusionConfig{VectorWeight: float64(q.wv) / 2, TextWeight: float64(q.wt) / 2, K: float64(q.rrk)})
-	s := r.h.NewSearch().WithK(q.k).WithFusion(fu)
+	s := r.h.NewSearch().WithK(q.k)
+	switch q.dflt {
+	case 1:
+		q.fusion, q.wv, q.wt, q.rrk = 0, 2, 2, 60
+	case 2:
+		q.wv, q.wt, q.rrk = 2, 2, 60
+		s = s.WithFusionKind(fuseKinds[q.fusion])
+	default:
+		fu, _ := comet.NewFusion(fuseKinds[q.fusion], &comet.FusionConfig{VectorWeight: float64(q.wv) / 2, TextWeight: float64(q.wt) / 2, K: float64(q.rrk)})
+		s = s.WithFusion(fu)
+	}
+	if q.dflt != 0 {
+		// a caller that tunes the configuration it was given changes its own copy only
+		c := comet.DefaultFusionConfig()
+		c.VectorWeight, c.TextWeight, c.K = 7, 0.25, 3
+	}
 	if r.vecKind == "ivf" {
 		s = s.WithNProbes(2) // every cluster: exact
 	}
@@ -261,6 +281,28 @@ func (r *hyRun) search(q hyQuery) {
 			s = s.WithMetadataGroups(gs...)
 		}
 	}
+	r.execLog(q, s, hasFilter)
+	if len(r.prepared) < 4 && r.rng.Intn(8) == 0 { // kept for later: a prepared search may be executed again when the index has changed
+		r.prepared = append(r.prepared, hyPrepared{q, s, hasFilter})
+	}
+}
+
+type hyPrepared struct {
+	q         hyQuery
+	s         comet.HybridSearch
+	hasFilter bool
+}
+
+// rerun executes a search that was prepared (and executed) earlier once more: it answers for the index as it is now
+func (r *hyRun) rerun() {
+	if len(r.prepared) == 0 {
+		return
+	}
+	p := r.prepared[r.rng.Intn(len(r.prepared))]
+	r.execLog(p.q, p.s, p.hasFilter)
+}
+
+func (r *hyRun) execLog(q hyQuery, s comet.HybridSearch, hasFilter bool) {
 	var rs []comet.HybridSearchResult
 	var err error
 	panicked := guard(func() { rs, err = s.Execute() })
@@ -314,6 +356,9 @@ func (r *hyRun) randQuery() hyQuery {
 	}
 	if !useT && r.rng.Intn(12) == 0 {
 		q.emptyText = true
+	}
+	if r.rng.Intn(6) == 0 {
+		q.dflt = 1 + r.rng.Intn(2)
 	}
 	if useM {
 		fields := []string{"c", "n"}
@@ -376,6 +421,11 @@ func (r *hyRun) battery() {
 	r.search(hyQuery{qpos: -1, text: "zzz", groups: eq("x"), k: 3, fusion: 0, wv: 2, wt: 2})      // text matches nothing inside a non-empty candidate set
 	r.search(hyQuery{qpos: 5, text: "aa", groups: eq("w"), k: 3, fusion: 2, wv: 2, wt: 2})         // filter matches nothing
 	r.search(hyQuery{qpos: 9, text: "bb", groups: eq("y"), k: 2, fusion: 3, wv: 2, wt: 2})         // min fusion: intersection may be empty
+	// the default fusion and the fusion kinds with their default configuration
+	r.search(hyQuery{qpos: 3, text: "aa bb", k: 5, dflt: 1})
+	for f := 0; f < 4; f++ {
+		r.search(hyQuery{qpos: 3, text: "aa bb", k: 5, fusion: f, dflt: 2})
+	}
 	// a query on a stored position (distance 0) with text, under every fusion
 	for f := 0; f < 4; f++ {
 		r.search(hyQuery{qpos: 2, text: "aa bb", k: 5, fusion: f, wv: 2, wt: 2})
@@ -518,7 +568,7 @@ func drvHybrid(args []string) error {
 				}
 				fault := "none"
 				if r.rng.Intn(6) == 0 {
-					fault = []string{"vec", "meta", "metanil"}[r.rng.Intn(3)]
+					fault = []string{"vec", "meta", "metanil", "metai32"}[r.rng.Intn(4)]
 					if fault == "vec" && pos == -1 {
 						pos = 2
 					}
@@ -535,7 +585,11 @@ func drvHybrid(args []string) error {
 			case x < 12:
 				r.reload()
 			default:
-				r.search(r.randQuery())
+				if r.rng.Intn(5) == 0 {
+					r.rerun()
+				} else {
+					r.search(r.randQuery())
+				}
 			}
 		}
 	}
